@@ -24,7 +24,21 @@ RESERVED = ['te', 'content-type', 'user-agent']
 
 # ---- generators -----------------------------------------------------------------------------------
 
+# valid keys that look like (or share a prefix with) HTTP / reserved names: HTTP stacks like to
+# normalise, join or filter exactly these
+LOOKALIKE_KEYS = ['cookie', 'set-cookie', 'host', 'accept', 'date', 'authorization', 'connection',
+                  'tenant-id', 'test', 'te-x', 'content-type-options', 'content-types', 'user-agent-x',
+                  'user-agents', 'grpc', 'grp', 'grpcx', 'x-te', 'x-grpc-y', 'status', 'path', 'method']
+
+
 def gen_key(rng, bin_=None):
+    if bin_ is not True and rng.random() < 0.12:
+        k = rng.choice(LOOKALIKE_KEYS)
+        if bin_ is None and rng.random() < 0.2:
+            k += '-bin'
+        if k.startswith('grpc-') or k in RESERVED:      # e.g. 'grpc' + '-bin' would be reserved
+            k = 'x' + k
+        return k
     n = rng.choice([1, 1, 2, 3, 5, 8, 13])
     k = ''.join(rng.choice(KEYCH) for _ in range(n))
     if bin_ is None:
@@ -419,6 +433,9 @@ def run(ctx):
     # end to end: valid metadata through a real client/server pair, in three response layouts
     shapes = ['normal', 'trailers-only-error', 'trailers-only-ok', 'late-error']
     cases = [(gen_valid_md(rng), shapes[i % 4]) for i in range(ctx.n(120, 2000))]
+    # every look-alike key repeated and followed by another key, through every response layout in turn
+    for i, k in enumerate(LOOKALIKE_KEYS):
+        cases.append(([(k, 'a=1'), ('m', 'x'), (k, 'b=2'), ('zz', 't')], shapes[(i + ctx.seed) % 4]))
     for (md, shape), out in zip(cases, run_e2e(cases)):
         res.evaluations += 1
         res.count('e2e:' + shape)
